@@ -175,6 +175,11 @@ func (m *TlvModel) GenReadFrom(buf *bytes.Buffer) error {
 				l := enc.TLNum(0)
 				{{call .GenTlvNumberDecode "typ"}}
 				{{call .GenTlvNumberDecode "l"}}
+				if l > enc.TLNum(reader.Length()-reader.Pos()) {
+					// The value cannot extend beyond the enclosing block: refuse before any
+					// field reader allocates or skips by the announced length
+					return nil, enc.ErrFailToParse{TypeNum: typ, Err: io.ErrUnexpectedEOF}
+				}
 
 				err = nil
 
